@@ -303,7 +303,7 @@ def apply(fst, root, op):
 
 def op_id(op):
     c = op.get('code')
-    parts = [op['op'], O.path_str([tuple(x) for x in op['path']])]
+    parts = [op['op'] + (':' + op['fault'] if 'fault' in op else ''), O.path_str([tuple(x) for x in op['path']])]
     if 'field' in op:
         parts.append(op['field'])
     if 'start' in op:
